@@ -28,7 +28,11 @@ MCNextX ==
     \/ /\ app.op # "none"
        /\ BeginCall(app.op, app.left, app.left, FALSE, 1, "any", FALSE) \/ RejectedCall(app.op, app.left)
     \/ InnerStep
-    \/ /\ app.nops < MaxOps /\ \E t \in MCTargets : Update(t)
+    \* between any two lzma_code() calls, with a working or a failing allocator
+    \/ /\ app.nops < MaxOps
+       /\ \E t \in MCTargets, fm \in FailModes :
+             /\ (fm # "none" => (t.props = "p1" /\ t.pre # "armbad") \/ (t.props = "p0" /\ t.pre # cfg.chain0.pre))
+             /\ Update(t, fm)
 
 MCNext == MCNextX /\ MStep
 MCSpec == MCInit /\ [][MCNext]_<<allvars, mvars>>
